@@ -1034,7 +1034,13 @@ class ChannelFactory:
         if item is not None:
             callback, endmarker, _strconfig = item
             if endmarker is not NO_ENDMARKER_WANTED:
-                callback(endmarker)
+                try:
+                    callback(endmarker)
+                except Exception as exc:
+                    # we run in the receiver thread (or its epilogue): a failing
+                    # callback must neither end receiving nor keep a worker
+                    # from terminating
+                    self.gateway._trace("exception during endmarker callback: %s" % exc)
 
     def _local_close(self, id: int, remoteerror=None, sendonly: bool = False) -> None:
         channel = self._channels.get(id)
